@@ -156,7 +156,83 @@ def rule_d(ctx, R):
     ctx.ob("C12-d", "incomplete-gamma call sites found: %d (>= 2)" % len(sites), len(sites) >= 2, body.path, "statrs-site-floor")
 
 
+PANIC_ASSERTS = ("BoundsCheck", "DivisionByZero", "RemainderByZero")
+UNWRAPS = ("unwrap", "expect", "unwrap_err", "expect_err")
+
+
+def panic_sites(facts, body):
+    """[(kind, where, block)] of constructs in `body` that panic for some value: data-dependent compiler assertions, unwrap-family
+    calls, container indexing through std's Index, explicit panics."""
+    out = []
+    has_f2i = any(s["rv"]["k"] == "cast" and s["rv"].get("kind") == "FloatToInt" for _bi, _si, s in pat.stmts(body))
+    for bi, blk in enumerate(body.blocks):
+        if blk["cleanup"]:
+            continue
+        t = blk["term"]
+        if t["k"] == "assert":
+            kind = t.get("msg_dbg", "").split("(")[0].split(" ")[0]
+            if kind in PANIC_ASSERTS or (kind == "Overflow" and has_f2i):
+                out.append(("assert:" + kind, pat.where(t), bi))
+        elif t["k"] == "call":
+            c = t.get("callee") or {}
+            path, name, iself = c.get("path", ""), c.get("name"), c.get("impl_self") or ""
+            if name in UNWRAPS and (iself.startswith("core::option::Option") or iself.startswith("core::result::Result")):
+                out.append(("call:" + name, pat.where(t), bi))
+            elif name == "index" and (c.get("trait") or "").endswith("Index") and c.get("crate") in ("core", "alloc", "std"):
+                out.append(("call:index", pat.where(t), bi))
+            elif path.startswith(("core::panicking::", "std::rt::begin_panic", "std::panicking::")) and c.get("crate") in ("core", "std"):
+                out.append(("panic", pat.where(t), bi))
+    return out
+
+
+def rule_e(ctx, R):
+    from ..f64facts import ZERO
+    ctx.rule("C12-e", "never panics (besides C12-d): inverse_gamma_lr, the f64 routine and their local callees contain no bounds / division "
+                      "assertion, no unwrap/expect, no std indexing, and every explicit panic is unreachable for a > 0 finite and p in [0,1) "
+                      "(IEEE-class reachability from the parameters)")
+    try:
+        q = R.quantile()
+    except RoleLost as e:
+        return ctx.lost("C12-e", str(e))
+    seen, work, bodies = set(), [q], []
+    while work:
+        b = work.pop()
+        if id(b) in seen:
+            continue
+        seen.add(id(b))
+        bodies.append(b)
+        work.extend(ctx.facts.closures_of(b.path))
+        for bi, t, cb in R.local_callees(b):
+            fi = ctx.facts.fns.get(cb.path) or {}
+            if (fi.get("impl_trait") or "").endswith("MomTropFloat"):
+                continue   # the scalar's own conversions (user code for a generic T; f64's are decided under C20-a)
+            work.append(cb)
+    n = 0
+    for b in bodies:
+        ctx.fn(b.path)
+        sites = panic_sites(ctx.facts, b)
+        v = Vals(b)
+        for kind, where, bi in sites:
+            ok = False
+            why = ""
+            if kind == "panic":
+                # reachable for an in-domain argument?  the first two f64 parameters are (a, p): a in {pos}, p in {zero, pos}
+                f64_args = [l["i"] for l in b.locals[1:b.arg_count + 1] if l["ty"] == "f64"]
+                doms = [frozenset([POS]), frozenset([ZERO, POS])]
+                for ai, dom in zip(f64_args[:2], doms):
+                    IN, _g, _o = classes_at(b, Root(("arg", ai), ()), v, init=dom)
+                    if bi not in IN:
+                        ok, why = True, "unreachable for parameter _%d in %s" % (ai, sorted(dom))
+                        break
+            n += 1
+            ctx.ob("C12-e", "%s at %s cannot fire on the domain%s" % (kind, where, " (%s)" % why if why else ""), ok, b.path, "panic-site:" + kind,
+                   where=where, detail="%s in the quantile routine: for some in-domain (a, p) the sample would panic instead of returning Ok / Err" % kind)
+    ctx.ob("C12-e", "quantile routines scanned for panicking constructs: %d bodies, %d candidate site(s)" % (len(bodies), n), len(bodies) >= 2, q.path,
+           "panic-scan-floor")
+
+
 def run(ctx):
     rule_a(ctx, ctx.roles)
     rule_bc(ctx, ctx.roles)
     rule_d(ctx, ctx.roles)
+    rule_e(ctx, ctx.roles)
